@@ -1,6 +1,6 @@
 #!/bin/sh
 # run every registered check once (tier from $1, default quick) on the real tree; print one line each
-cd /verif || exit 2
+cd "$(dirname "$0")/.." || exit 2
 T="${1:-quick}"
 for p in $(python3 -c "import json;print(' '.join(c['property_id'] for c in json.load(open('MANIFEST.json'))['checks']))"); do
   ./vcheck "$p" --tier "$T" 2>&1 | grep -E "^(OK |VIOLATION|INFRA|BROKEN)" | cut -c1-200
